@@ -58,6 +58,32 @@ def rand_shape(rng, simple=False, span=100, sizes=(20, 240)):
     return {"kind": "contour", "segs": segs}
 
 
+def rand_pair(rng, i, simple=False, span=100, sizes=(20, 240)):
+    """pairs of shapes by configuration family: random placement (crossing / disjoint / touching by chance), B nested strictly
+    inside A (results with holes), a crossing next to an on-curve node of A (split-window edge), A enclosing a pocket with B"""
+    fam = i % 5
+    if fam == 1:
+        # nested: a small shape well inside a large one
+        w, h = float(rng.randint(150, 240)), float(rng.randint(150, 240))
+        o = (float(rng.randint(-span, span)), float(rng.randint(-span, span)))
+        a = {"kind": "rect", "w": w, "h": h, "o": o} if rng.random() < 0.5 else {"kind": "ellipse", "rx": w / 2, "ry": h / 2, "o": o}
+        r = float(rng.randint(8, 30))
+        bo = (o[0] + float(rng.randint(-15, 15)), o[1] + float(rng.randint(-15, 15)))
+        b = rng.choice([{"kind": "circle", "r": r, "o": bo}, {"kind": "rect", "w": 2 * r, "h": r, "o": bo}, {"kind": "ellipse", "rx": r, "ry": r / 2, "o": bo}])
+        return (a, b) if rng.random() < 0.8 else (b, a)
+    if fam == 3:
+        # two circles crossing within about 1 % (in parameter) of an on-curve node of the first
+        r = float(rng.randint(30, 120))
+        o = (float(rng.randint(-span, span)), float(rng.randint(-span, span)))
+        phi = rng.choice([0.0, 0.5, 1.0, 1.5]) * math.pi + rng.choice([-1, 1]) * math.radians(rng.uniform(0.3, 0.8))
+        P = (o[0] + r * math.cos(phi), o[1] + r * math.sin(phi))
+        R = float(rng.randint(30, 120))
+        psi = phi + rng.choice([-1, 1]) * rng.uniform(0.5, 1.2)
+        bo = (P[0] + R * math.cos(psi), P[1] + R * math.sin(psi))
+        return {"kind": "circle", "r": r, "o": o}, {"kind": "circle", "r": R, "o": bo}
+    return rand_shape(rng, simple=simple, span=span, sizes=sizes), rand_shape(rng, simple=simple, span=span, sizes=sizes)
+
+
 class _PCProxy:
     """stands in for the pyclipper module inside booleanoperationsmixin: records Execute's answer"""
 
